@@ -1,0 +1,59 @@
+//go:build verif
+
+// Contracts for govc (contract-based deductive verification, see /verif/DESIGN.md).
+// Comment-only file: it adds no code and is compiled only with -tags verif.
+
+package sql
+
+// Constructors of the SQL syntax tree: what they build (proved), so that the
+// planners' contracts can speak about operators and operands of a clause.
+//@ func NewIntVal [C13]
+//@   modifies nothing
+//@   ensures fresh(result) && result.val == val
+//@ func NewRawObject [C13]
+//@   modifies nothing
+//@   ensures fresh(result) && result.val == val
+//@ func BinaryLogicalOp [C13]
+//@   modifies nothing
+//@   ensures fresh(result) && result.fn == fn && len(result.clauses) == 2 && result.clauses[0] == left && result.clauses[1] == right
+//@ func Ge [C13]
+//@   modifies nothing
+//@   ensures fresh(result) && result.fn == ">=" && len(result.clauses) == 2 && result.clauses[0] == left && result.clauses[1] == right
+//@ func Gt [C13]
+//@   modifies nothing
+//@   ensures fresh(result) && result.fn == ">" && len(result.clauses) == 2 && result.clauses[0] == left && result.clauses[1] == right
+//@ func Lt [C13]
+//@   modifies nothing
+//@   ensures fresh(result) && result.fn == "<" && len(result.clauses) == 2 && result.clauses[0] == left && result.clauses[1] == right
+//@ func Le [C13]
+//@   modifies nothing
+//@   ensures fresh(result) && result.fn == "<=" && len(result.clauses) == 2 && result.clauses[0] == left && result.clauses[1] == right
+
+// Ghost: the clauses handed to the last AndWhere / AndPreWhere of a builder chain.
+//@ ghost var whereArgs []SQLCondition
+//@ ghost var preWhereArgs []SQLCondition
+
+//@ iface (ISelect).AndWhere(clauses)
+//@   ghostset whereArgs = clauses
+//@   modifies whereArgs
+//@ iface (ISelect).AndPreWhere(clauses)
+//@   ghostset preWhereArgs = clauses
+//@   modifies preWhereArgs
+//@ iface (ISelect).Select(cols)
+//@   modifies nothing
+//@ iface (ISelect).From(table)
+//@   modifies nothing
+//@ iface (ISelect).GroupBy(fields)
+//@   modifies nothing
+//@ iface (ISelect).OrderBy(fields)
+//@   modifies nothing
+//@ iface (ISelect).Limit(limit)
+//@   modifies nothing
+//@ func NewSelect
+//@   modifies nothing
+//@ func NewSimpleCol
+//@   modifies nothing
+//@ func NewCol
+//@   modifies nothing
+//@ func NewIn
+//@   modifies nothing
